@@ -9,6 +9,15 @@
            (spec "<Spec.data>" (<Spec.required errors>) (<Spec.errsF errors>)
                  ((null "<path json>" (<candidate errors>))…)))      -- Spec.nulls
 
+  executor level, from the document (the model runs collectFields / mergeSelectionSets itself,
+  ApiFu/C02/Collect.lean: `Request.ofDoc`)
+    (rund query|mutation|mutation-settle (<sel>…) <root type name> (<wfield>…) (<mask>…))
+      sel    := (f <key> <name> <skip> (<sel>…)) | (inl <skip> <applies> (<sel>…))
+              | (spr <skip> <fragment> <applies> (<sel>…))          -- skip / applies: true|false
+      wfield := (w <name> true|false sync|promise|pre none|(e "<msg>") <wcomp>)   -- per field *name*
+      wcomp  := null | (s "<json leaf>") | (bad "<msg>") | (list true|false <wcomp>…) | (wobj <type name> <wfield>…)
+    → as for `run`
+
   combinator level
     (comb <term> (<step>…))
       term := (ready ok null|<n>) | (ready err "<msg>") | (promise <id>) | (map catch|nonnull|log <tag> <term>)
@@ -22,6 +31,7 @@ import ApiFu.Common.Loop
 import ApiFu.C02.Model
 import ApiFu.C02.Spec
 import ApiFu.C02.Nulls
+import ApiFu.C02.Collect
 
 open ApiFu ApiFu.C02
 
@@ -93,6 +103,53 @@ def handleRun (kind : String) (fields : List Sexp) (sched : List Sexp) : Option 
     | "mutation-settle" => some (true, true)     -- the executor with the repair of F-11a
     | _ => none)
   let rq : Request := { mutation := mutation, fields := fields, sched := sched, settle := settle }
+  pure (outSexp rq (run rq))
+
+/-! executor level, from the document -/
+
+partial def parseSel : Sexp → Option Sel
+  | .list [.atom "f", .atom key, .atom name, skip, .list sub] => do
+    pure (.field key name (← parseBool skip) (← sub.mapM parseSel))
+  | .list [.atom "inl", skip, applies, .list body] => do
+    pure (.inline (← parseBool skip) (← parseBool applies) (← body.mapM parseSel))
+  | .list [.atom "spr", skip, .atom frag, applies, .list body] => do
+    pure (.spread (← parseBool skip) frag (← parseBool applies) (← body.mapM parseSel))
+  | _ => none
+
+mutual
+  partial def parseWComp : Sexp → Option WComp
+    | .atom "null" => some .null
+    | .list [.atom "s", .atom t] => some (.scalar t)
+    | .list [.atom "bad", .atom m] => some (.bad m)
+    | .list (.atom "list" :: nn :: items) => do
+      pure (.list (← parseBool nn) (← items.mapM parseWComp))
+    | .list (.atom "wobj" :: .atom tname :: fields) => do
+      pure (.object tname (← fields.mapM parseWField))
+    | _ => none
+  partial def parseWField : Sexp → Option WField
+    | .list [.atom "w", .atom name, nn, .atom mode, e, c] => do
+      let nn ← parseBool nn
+      let mode ← parseMode mode
+      let rerr ← (match e with
+        | .atom "none" => some none
+        | .list [.atom "e", .atom m] => some (some m)
+        | _ => none)
+      pure (.mk name nn mode rerr (← parseWComp c))
+    | _ => none
+end
+
+def handleRunDoc (kind : String) (sels : List Sexp) (tname : String) (world : List Sexp) (sched : List Sexp) :
+    Option Sexp := do
+  let sels ← sels.mapM parseSel
+  let world ← world.mapM parseWField
+  let sched ← sched.mapM Sexp.nat?
+  let (mutation, settle) ← (match kind with
+    | "query" => some (false, false)
+    | "mutation" => some (true, false)
+    | "mutation-settle" => some (true, true)
+    | _ => none)
+  let rq := Request.ofDoc { mutation := mutation, sels := sels, tname := tname, world := world, sched := sched,
+                            settle := settle }
   pure (outSexp rq (run rq))
 
 /-! combinator level -/
@@ -167,6 +224,10 @@ def handle (line : String) : String :=
   match Sexp.parse line with
   | some (.list [.atom "run", .atom kind, .list fields, .list sched]) =>
     match handleRun kind fields sched with
+    | some s => toString s
+    | none => "bad-op"
+  | some (.list [.atom "rund", .atom kind, .list sels, .atom tname, .list world, .list sched]) =>
+    match handleRunDoc kind sels tname world sched with
     | some s => toString s
     | none => "bad-op"
   | some (.list [.atom "comb", t, .list steps]) =>
